@@ -105,6 +105,29 @@ TABLE.update({
     "c08_preserved_routing_failure_ignored.diff": ("contracts.c12", "_restore_preserved_connection", None),
     "c08_preserved_span_doubled.diff": ("contracts.c12", "_restore_preserved_connection", None),
 })
+# patches refuted by a contract evaluated on the real function over its enumerated box: "module:contract:arg_sets[:tier]"
+TABLE.update({
+    "c04_self_feedback_on_green.diff": ("box", "contracts.c04:self_feedback:self_feedback_arg_sets", None),
+    "c04_cleanup_keeps_wires_of_removed_gate.diff": ("box", "contracts.c04:cleanup_gates:cleanup_arg_sets", None),
+    "../seeded/C04-1/patch.diff": ("box", "contracts.c04:optimize_feedback:feedback_arg_sets", None),
+    "../seeded/C04-2/patch.diff": ("box", "contracts.c12:bidi:bidi_arg_sets", None),
+    "../seeded/C04-6/patch.diff": ("box", "contracts.c12:bidi:bidi_arg_sets", None),
+    "c05_latch_feedback_on_red.diff": ("contracts.c05", "_setup_latch_feedback", None),
+})
+BOX_RUNNER = r'''
+import sys, importlib
+sys.path.insert(0, %r)
+from bounded import pipeline
+pipeline.ensure_repo()
+from bounded.contract_enum import run_contract_enum
+if __name__ == "__main__":
+    modname, cname, aname = sys.argv[2].split(":")[:3]
+    mod = importlib.import_module(modname)
+    args = getattr(mod, aname)()
+    br = run_contract_enum("box", getattr(mod, cname), args, "selftest")
+    print(br.error)
+    print("RESULT", 1, 1 if br.violations else 0)
+''' % str(VERIF)
 GUARD_RUNNER = r'''
 import sys
 sys.path.insert(0, %r)
@@ -145,7 +168,12 @@ def main():
             if r.returncode:
                 print(f"{patch}: PATCH DOES NOT APPLY (contract drift of the self-test)"); fails += 1; continue
             env = dict(os.environ, FACTO_REPO=str(repo), PYTHONPATH=f"{VERIF}:{repo}", PYTHONHASHSEED="0")
-            args = [str(VERIF / ".venv/bin/python"), "-c", GUARD_RUNNER if mod == "guard" else RUNNER, mod, pat] + ([note] if note else [])
+            runner = {"guard": GUARD_RUNNER, "box": BOX_RUNNER}.get(mod, RUNNER)
+            if mod == "box":  # the pool of run_contract_enum needs an importable main module
+                (tmp / "box_runner.py").write_text(runner)
+                args = [str(VERIF / ".venv/bin/python"), str(tmp / "box_runner.py"), mod, pat]
+            else:
+                args = [str(VERIF / ".venv/bin/python"), "-c", runner, mod, pat] + ([note] if note else [])
             r = subprocess.run(args, env=env, capture_output=True, text=True)
             line = [l for l in r.stdout.splitlines() if l.startswith("RESULT")]
             tot, bad = (int(x) for x in line[-1].split()[1:]) if line else (0, 0)
